@@ -201,10 +201,11 @@ def build(tier):
             'section_t::block(raise) (real body incl. any LOCAL std::vector<future_t> it uses: default / move construction, swap, std::swap, clear, range-for; file-local helpers are extracted automatically), at a ghost task: (1) an exception leaves only if raise; (2) on the normal exit every valid future held at entry has been waited for; (3) on the exceptional exit each of them has been waited for OR IS STILL HELD BY THE SECTION (so ~section_t waits for it); (4) with raise a stored exception is delivered (block does not return normally) and (5) every valid future went through get() -- a future that is already ready (wait_for) is no exception; (6) the exception that leaves is the first stored one in visiting order; (7) observed completion is never lost; every position visited once, in order; get / wait / wait_for only on valid futures',
             '~section_t(): does not throw; every valid future the section holds has been waited for (block is called through its proved contract)',
             'queue_t::enqueue_no_lock / enqueue: exactly one task is pushed, the returned future is that task\'s; enqueue pushes under the lock and notifies once afterwards',
-            'BOUNDED (not proved; target conc_map_1sub_2_w0only, listed under bounded): the extracted pool_t(2) constructor (real worker_t constructor binds queue and id, any hardware_concurrency), map(elements <= 2, op, any raise) un-chunked size_t with the real enqueue_no_lock and task lambda, worker_t::operator() with its real wait predicate, section_t::block / ~section_t and ~pool_t run as CBMC threads: ALL interleavings of the submitting thread with worker 0 in which worker thread 1 is not scheduled before it is joined.  Asserted: every task body runs at most once; front / pop_front / emplace_back / clear / empty only with the mutex held by the calling thread and (front, pop_front) on a non-empty queue; the popped task holds its function and was moved out before pop_front; the task and the operator run outside the lock; worker id below the pool size and not in use by another running task of the call; when map returns every element was processed and every task finished, none outside [0, elements); no exception leaves map; wait called with the lock held; no self-deadlock on the mutex; join with the mutex released, once per thread; after ~pool_t every worker has left its loop without the lock and was joined, stop is set, the mutex free, the queue empty, nothing touches the queue or runs afterwards; every loop stays within its unwinding bound; reachability canary: the final state is reached'],
+            'BOUNDED (not proved; listed under bounded; THOROUGH tier: target conc_map_1sub_2_w0only, elements <= 2, 55-70 s of SAT time; QUICK tier: only conc_map_1sub_1_w0only, the same harness with elements <= 1, i.e. the sequential branch of map between the real constructor and ~pool_t with idle workers, ~30 s): the extracted pool_t(2) constructor (real worker_t constructor binds queue and id, any hardware_concurrency), map(elements <= 2, op, any raise) un-chunked size_t with the real enqueue_no_lock and task lambda, worker_t::operator() with its real wait predicate, section_t::block / ~section_t and ~pool_t run as CBMC threads: ALL interleavings of the submitting thread with worker 0 in which worker thread 1 is not scheduled before it is joined.  Asserted: every task body runs at most once; front / pop_front / emplace_back / clear / empty only with the mutex held by the calling thread and (front, pop_front) on a non-empty queue; the popped task holds its function and was moved out before pop_front; the task and the operator run outside the lock; worker id below the pool size and not in use by another running task of the call; when map returns every element was processed and every task finished, none outside [0, elements); no exception leaves map; wait called with the lock held; no self-deadlock on the mutex; join with the mutex released, once per thread; after ~pool_t every worker has left its loop without the lock and was joined, stop is set, the mutex free, the queue empty, nothing touches the queue or runs afterwards; every loop stays within its unwinding bound; reachability canary: the final state is reached'],
         'not_decided': [
             'EVERY interleaving claim of the property remains UNPROVED (the interleaving check below is a bounded stand-in, never counted): that each enqueued task is executed exactly once when several workers and submitters run concurrently, that a worker id is never used by two tasks of one call at the same time, that map returns only after all tasks finished under every schedule, absence of lost wake-ups, deadlock-free shutdown with busy workers / queued tasks, several threads submitting to one pool',
             'interleavings in which BOTH worker threads run: the same harness with two worker threads (conc.py scen_a(2, False): 2 workers + submitter, <= 2 tasks) is beyond CBMC 6.11\'s partial-order encoding here: ~370k variables / 1.8M clauses, the first satisfying schedule takes 30-80 s and the final UNSAT call did not finish in 280 s with minisat or cadical, also when restricted to the single worker-id assertion (--property), with hardware_concurrency fixed, without ~pool_t, or with the workers first scheduled at map\'s notify_all; critical sections as CBMC atomic sections (Lipton reduction) are rejected by symex ("atomic sections differ across branches": the worker leaves its critical section on two paths).  Consequently the worker-id exclusivity clause (two workers given the same tnum) is exercised by the sequential constructor proof only; 2 submitters and shutdown under load (queued / running tasks at ~pool_t, broken promises: conc.h NV_BROKEN_PROMISES) were not run',
+            'run time of the two-element interleaving scenario: 55-70 s CPU (cadical: 20 s for the canary model + 43 s for the final UNSAT call); tried without gain: minisat (8 + 53 s), --slice-formula (22 + 46 s), --no-sat-preprocessor (15 + 80 s), kissat as external solver (36 + 60 s), the UNSAT call alone without the canaries (75 s, so splitting the properties over processes does not help); the one-element scenario still takes ~30 s (constructor / shutdown interleavings dominate, not the tasks), so the cost sits in the lifecycle events of the partial-order encoding (mutex word 24 writes, deque size 14, running flags 14); it therefore runs in the thorough tier only (its 7 canary mutations carry "tier": "thorough")',
             'lost wake-ups / deadlock freedom: the bounded model lets wait(lock, pred) return whenever pred holds (notify_one / notify_all are no-ops), so a missing or misplaced notify is invisible; only "the final state is reachable under some schedule" is checked (nv_canary).  The stricter notification-counter model is sketched in conc.h (NV_STRICT_NOTIFY) but not run',
             'data races on plain members read outside the models (m_stop is read directly by the extracted code): no race detector is run (goto-instrument --race-check not tried); sequential consistency is assumed by the bounded check',
             'data races on the operator\'s own state; exceptions thrown by the operator in the sequential branch',
